@@ -157,8 +157,7 @@ def check_end_to_end(name, py, col, model_fail):
         if not ok:
             for shape in (camel_shapes(py) if label == "camel" else ["any"]):
                 col.add("C19:roundtrip-drops-field:%s:%s" % (label, shape), name, info)
-        if ok == model_fail[label]:
-            col.add("C19:e2e-disagrees-with-key-model:%s" % label, name, info)
+
     try:
         got = M().from_dict({name: 7})
         if got != want:
@@ -221,17 +220,9 @@ def check_name(name, col, e2e):
     for label, cas in (("camel", _casing.camel_case), ("snake", _casing.snake_case)):
         key = cas(py).rstrip("_")
         back = _casing.safe_snake_case(key)
-        model_fail[label] = back != py
-        if back != py:
-            detail = "%r: field %r -> %s key %r -> from_dict looks up %r" % (name, py, label, key, back)
-            if label == "camel":
-                for shape in camel_shapes(py):
-                    col.add("C19:key-not-mapped-back:camel:%s" % shape, name, detail)
-            else:
-                col.add("C19:key-not-mapped-back:snake", name, detail)
-    back = _casing.safe_snake_case(name)
-    if back != py:
-        col.add("C19:proto-name-not-mapped-back", name, "%r: field %r but from_dict looks up %r" % (name, py, back))
+        # (the pure re-casing model `safe_snake_case(key) == field` is only a MECHANISM; what the property demands
+        #  is decided end to end below: from_dict must find the field for the key to_dict emitted)
+        model_fail[label] = None
     if e2e and _valid(py) and not keyword.iskeyword(py):
         check_end_to_end(name, py, col, model_fail)
     return outs
